@@ -429,7 +429,7 @@ struct Value {
             fprintf(stderr, "cannot base58-decode non-string value\n");
             return;
         }
-        if (!DecodeBase58(str, data, 200)) {
+        if (!DecodeBase58(str, data, (int)str.size())) {
             fprintf(stderr, "decode failed\n");
         }
         type = T_DATA;
@@ -444,7 +444,7 @@ struct Value {
             fprintf(stderr, "cannot base58-decode non-string value\n");
             return;
         }
-        if (!DecodeBase58Check(str, data, 200)) {
+        if (!DecodeBase58Check(str, data, (int)str.size())) { // (the payload is never longer than its encoding; a fixed 200 made every longer round trip fail)
             fprintf(stderr, "decode failed\n");
         }
         type = T_DATA;
